@@ -24,7 +24,6 @@ CORPUS_THOROUGH = CORPUS_QUICK + ["analysis/taint/testdata/basic", "analysis/tai
                                   "analysis/taint/testdata/closures", "analysis/backtrace/testdata/validators"]
 
 KNOWN_KEY = "validator-single-path"
-DUP_KEY = "validator-dup-last-block"
 
 # ---------------------------------------------------------------------------------- scenario generator
 PRELUDE = '''package main
@@ -35,15 +34,19 @@ import (
 	"strings"
 )
 
-const MARK = "@@MARK@@"
+const MARK = "@@MARK@@"   // marker of the data of taint problem 1 (source)
+const MARKB = "@@MRKB@@" // problem 2 / 3 (sourceB)
+const MARKC = "@@MRKC@@" // problem 3 (sourceC)
 
 var bits uint
 var steps int
-var leaks = map[int]bool{}
+var leaks = map[string]bool{}
 
 type stop struct{}
 
-func source() string { return "a" + MARK + "b" }
+func source() string  { return "a" + MARK + "b" }
+func sourceB() string { return "a" + MARKB + "b" }
+func sourceC() string { return "a" + MARKC + "b" }
 
 // opaque branch condition: next bit of the current valuation
 func c() bool {
@@ -63,8 +66,15 @@ func tick() {
 func logit(x any) {}
 
 func hit(k int, x any) {
-	if strings.Contains(fmt.Sprint(x), MARK) {
-		leaks[k] = true
+	s := fmt.Sprint(x)
+	if strings.Contains(s, MARK) {
+		leaks[fmt.Sprint(k, " A")] = true
+	}
+	if strings.Contains(s, MARKB) {
+		leaks[fmt.Sprint(k, " B")] = true
+	}
+	if strings.Contains(s, MARKC) {
+		leaks[fmt.Sprint(k, " C")] = true
 	}
 }
 
@@ -103,6 +113,12 @@ func ValidateBox(b box) bool { return !strings.Contains(b.S, MARK) }
 func Sanitize(x string) string { return strings.ReplaceAll(x, MARK, "") }
 
 func SanitizeVia(x string) string { return Sanitize(x + "!") }
+
+// sanitizers / validators of the OTHER taint problems (honest for their own marker only)
+func SanitizeB(x string) string  { return strings.ReplaceAll(x, MARKB, "") }
+func SanitizeAB(x string) string { return strings.ReplaceAll(strings.ReplaceAll(x, MARK, ""), MARKB, "") }
+func CheckB(x string) bool       { return !strings.Contains(x, MARKB) }
+func CheckAB(x string) bool      { return !strings.Contains(x, MARK) && !strings.Contains(x, MARKB) }
 
 func run(f func(), n int) {
 	for v := uint(0); v < 1<<uint(n); v++ {
@@ -181,6 +197,61 @@ XSHAPES = [
     ("first-tuple-element", 0, "s, _ := ValidateTupErr(x)\n\tif s != \"ok\" {\n\t\treturn\n\t}\n\t{S}"),
     ("validator-result-ignored", 0, "Validate(x)\n\t{S}"),
     ("validator-compared-false", 0, "if Validate(x) == false {\n\t\treturn\n\t}\n\t{S}"),
+]
+
+# a validator verdict NEGATED and STORED, branched on later: the only way to reach the `!` case of isValidatorCondition
+# (go/ssa compiles a plain `if !f(x)` by swapping the successors)
+NSHAPES = [
+    ("stored-negation-sink-on-invalid", 0, "invalid := !Validate(x)\n\tif invalid {\n\t\t{S}\n\t}"),
+    ("stored-negation-return-on-invalid", 0, "invalid := !Validate(x)\n\tlogit(invalid)\n\tif invalid {\n\t\treturn\n\t}\n\t{S}"),
+    ("stored-negation-else-sink", 0, "invalid := !Validate(x)\n\tif invalid {\n\t\tlogit(1)\n\t} else {\n\t\t{S}\n\t}"),
+    ("stored-negation-bypass", 0, "invalid := !Validate(x)\n\tif invalid {\n\t\tlogit(1)\n\t}\n\t{S}"),
+    ("stored-double-negation-sink-on-valid", 0, "inv := !Validate(x)\n\tok := !inv\n\tif ok {\n\t\t{S}\n\t}"),
+    ("stored-double-negation-sink-on-invalid", 0, "inv := !Validate(x)\n\tok := !inv\n\tif ok {\n\t\treturn\n\t}\n\t{S}"),
+    ("stored-double-negation-else-sink", 0, "inv := !Validate(x)\n\tok := !inv\n\tif ok {\n\t\tlogit(1)\n\t} else {\n\t\t{S}\n\t}"),
+    ("stored-negated-errcmp-sink-on-invalid", 0, "bad := ValidateErr(x) != nil\n\tok := !bad\n\tif ok {\n\t\treturn\n\t}\n\t{S}"),
+    ("stored-negated-errcmp-sink-on-valid", 0, "bad := ValidateErr(x) != nil\n\tok := !bad\n\tif ok {\n\t\t{S}\n\t}"),
+    ("stored-negated-erreq-sink-on-invalid", 0, "good := ValidateErr(x) == nil\n\tnotgood := !good\n\tif notgood {\n\t\t{S}\n\t}"),
+    ("stored-negated-erreq-return-on-invalid", 0, "good := ValidateErr(x) == nil\n\tnotgood := !good\n\tif notgood {\n\t\treturn\n\t}\n\t{S}"),
+    ("stored-negated-tupok-sink-on-invalid", 0, "_, ok := ValidateTupOk(x)\n\tbad := !ok\n\tif bad {\n\t\t{S}\n\t}"),
+    ("stored-negated-tuperr-sink-on-invalid", 0, "_, err := ValidateTupErr(x)\n\tfine := !(err != nil)\n\tif fine {\n\t\treturn\n\t}\n\t{S}"),
+    ("stored-negation-phi-same", 1, "invalid := !Validate(x)\n\tvar t bool\n\tif c() {\n\t\tt = invalid\n\t} else {\n\t\tt = invalid\n\t}\n\tif t {\n\t\t{S}\n\t}"),
+    ("stored-negation-phi-mixed", 1, "invalid := !Validate(x)\n\tif c() {\n\t\tinvalid = true\n\t}\n\tif invalid {\n\t\t{S}\n\t}"),
+    ("stored-negation-phi-return", 1, "invalid := !Validate(x)\n\tvar t bool\n\tif c() {\n\t\tt = invalid\n\t} else {\n\t\tt = invalid\n\t}\n\tif t {\n\t\treturn\n\t}\n\t{S}"),
+]
+
+# several taint problems: data of one problem crossing the sanitizers / validators of another one.  {SRC}: source call
+# (x is declared by the template), sinks: {K} = scenario id.  (shape, nbits, sink function prefix, body)
+CSHAPES = [
+    ("p1-through-sanitizer-of-p2", 0, "sink", "x := source()\n\tsink{K}(SanitizeB(x))"),
+    ("p2-through-sanitizer-of-p1", 0, "sink", "x := sourceB()\n\tsink{K}(Sanitize(x))"),
+    ("p2-through-own-sanitizer", 0, "sinkB", "x := sourceB()\n\tsinkB{K}(SanitizeB(x))"),
+    ("p1-through-shared-sanitizer", 0, "sink", "x := source()\n\tsink{K}(SanitizeAB(x))"),
+    ("p2-through-shared-sanitizer", 0, "sinkB", "x := sourceB()\n\tsinkB{K}(SanitizeAB(x))"),
+    ("both-through-sanitizer-of-p2", 0, "sink", "x := source() + sourceB()\n\tsink{K}(SanitizeB(x))"),
+    ("both-through-sanitizer-of-p1", 0, "sink", "x := source() + sourceB()\n\tsink{K}(Sanitize(x))"),
+    ("p1-sanitizer-of-p2-one-arm", 1, "sink", "x := source()\n\ty := SanitizeB(x)\n\tif c() {\n\t\ty = Sanitize(x)\n\t}\n\tsink{K}(y)"),
+    ("p1-validated-by-p2-then", 0, "sink", "x := source()\n\tif CheckB(x) {\n\t\tsink{K}(x)\n\t}"),
+    ("p1-validated-by-p2-early-return", 0, "sink", "x := source()\n\tok := CheckB(x)\n\tlogit(ok)\n\tif !ok {\n\t\treturn\n\t}\n\tsink{K}(x)"),
+    ("p2-validated-by-p1-then", 0, "sink", "x := sourceB()\n\tif Validate(x) {\n\t\tsink{K}(x)\n\t}"),
+    ("p2-validated-by-p1-err-early-return", 0, "sinkB", "x := sourceB()\n\tif err := ValidateErr(x); err != nil {\n\t\treturn\n\t}\n\tsinkB{K}(x)"),
+    ("p2-validated-by-own-then", 0, "sinkB", "x := sourceB()\n\tif CheckB(x) {\n\t\tsinkB{K}(x)\n\t}"),
+    ("p1-validated-by-shared-then", 0, "sink", "x := source()\n\tif CheckAB(x) {\n\t\tsink{K}(x)\n\t}"),
+    ("p2-validated-by-shared-early-return", 0, "sink", "x := sourceB()\n\tok := CheckAB(x)\n\tlogit(ok)\n\tif !ok {\n\t\treturn\n\t}\n\tsink{K}(x)"),
+    ("both-validated-by-p2-early-return", 0, "sink", "x := source() + sourceB()\n\tok := CheckB(x)\n\tlogit(ok)\n\tif !ok {\n\t\treturn\n\t}\n\tsink{K}(x)"),
+    ("p1-stored-negation-of-p2-validator", 0, "sink", "x := source()\n\tbad := !CheckB(x)\n\tif bad {\n\t\treturn\n\t}\n\tsink{K}(x)"),
+    ("p3-through-everything", 0, "sinkC", "x := sourceC()\n\ty := SanitizeB(Sanitize(x))\n\tif CheckB(y) && Validate(y) {\n\t\tsinkC{K}(y)\n\t}"),
+    ("p3-shared-source-through-sanitizer-of-p1", 0, "sinkC", "x := sourceB()\n\tsinkC{K}(Sanitize(x))"),
+    ("p3-shared-source-through-sanitizer-of-p2", 0, "sinkC", "x := sourceB()\n\tsinkC{K}(SanitizeB(x))"),
+    ("p3-validated-by-p1-early-return", 0, "sinkC", "x := sourceC()\n\tif err := ValidateErr(x); err != nil {\n\t\treturn\n\t}\n\tsinkC{K}(x)"),
+    ("p1-data-to-p3-sink", 0, "sinkC", "x := source()\n\tsinkC{K}(x)"),
+]
+
+# the taint problems of the generated configuration: (sources, sink regex, markers whose arrival is a leak)
+PROBLEMS = [
+    {"name": "P1", "sources": {"source"}, "sinks": r"^sink[0-9]+$", "markers": {"A"}},
+    {"name": "P2", "sources": {"sourceB"}, "sinks": r"^sink(B)?[0-9]+$", "markers": {"B"}},
+    {"name": "P3", "sources": {"sourceB", "sourceC"}, "sinks": r"^sinkC[0-9]+$", "markers": {"B", "C"}},
 ]
 
 # sanitizer shapes
@@ -296,12 +367,22 @@ def gen_program(seed, nrandom, quick=False):
         add(sname, "-", tmpl.replace("{S}", "sink%d(x)" % k).replace("{K}", str(k)), nbits)
     for sname, nbits, tmpl in SSHAPES:
         add(sname, "sanitizer", tmpl.replace("{K}", str(k)), nbits)
+    for sname, nbits, tmpl in NSHAPES:
+        add(sname, "stored", tmpl.replace("{S}", "sink%d(x)" % k), nbits)
+        if not quick:
+            add(sname + "/param", "stored", tmpl.replace("{S}", "sink%d(x)" % k), nbits, param=True)
+    for sname, nbits, prefix, tmpl in CSHAPES:
+        name = "sc%d" % k
+        funcs.append((name, "func %s() {\n\t%s\n}" % (name, tmpl.replace("{K}", str(k))), nbits))
+        scen.append({"k": k, "shape": sname, "form": "multi-problem", "fn": name, "sink": "%s%d" % (prefix, k)})
+        k += 1
     rfun, rscen = gen_random_cfg(rnd, 10000, nrandom)
     funcs += rfun
     scen += rscen
     src = [PRELUDE]
     for s in scen:
-        src.append("func sink%d(x any) { hit(%d, x) }" % (s["k"], s["k"]))
+        s.setdefault("sink", "sink%d" % s["k"])
+        src.append("func %s(x any) { hit(%d, x) }" % (s["sink"], s["k"]))
     for _, text, _ in funcs:
         src.append(text)
     main = ["func main() {"]
@@ -323,9 +404,35 @@ CONFIG_A = """taint-tracking-problems:
     validators:
       - package: "{pkg}"
         method: "^Validate.*"
+      - package: "{pkg}"
+        method: "^CheckAB$"
     sanitizers:
       - package: "{pkg}"
         method: "^Sanitize$"
+      - package: "{pkg}"
+        method: "^SanitizeAB$"
+  -
+    sources:
+      - package: "{pkg}"
+        method: "^sourceB$"
+    sinks:
+      - package: "{pkg}"
+        method: "^sink[0-9]+$"
+      - package: "{pkg}"
+        method: "^sinkB[0-9]+$"
+    validators:
+      - package: "{pkg}"
+        method: "^Check(B|AB)$"
+    sanitizers:
+      - package: "{pkg}"
+        method: "^Sanitize(B|AB)$"
+  -
+    sources:
+      - package: "{pkg}"
+        method: "^source(B|C)$"
+    sinks:
+      - package: "{pkg}"
+        method: "^sinkC[0-9]+$"
 options:
   log-level: 1
 """
@@ -337,6 +444,20 @@ CONFIG_B = """taint-tracking-problems:
     sinks:
       - package: "{pkg}"
         method: "^sink[0-9]+$"
+  -
+    sources:
+      - package: "{pkg}"
+        method: "^sourceB$"
+    sinks:
+      - package: "{pkg}"
+        method: "^sink(B)?[0-9]+$"
+  -
+    sources:
+      - package: "{pkg}"
+        method: "^source(B|C)$"
+    sinks:
+      - package: "{pkg}"
+        method: "^sinkC[0-9]+$"
 options:
   log-level: 1
 """
@@ -344,7 +465,7 @@ options:
 
 # ---------------------------------------------------------------------------------- dump parsing
 def parse(path):
-    """-> (programs: {dir: {"flows": {tag: set(sink name)}, "err": [...]}}, fns: {(dir, fid): fn})"""
+    """-> (programs: {dir: {"flows": {tag: set((sink name, source name))}, "err": [...], "stat": {}}}, fns: {(dir, fid): fn})"""
     progs = {}
     fns = {}
     cur = None
@@ -355,16 +476,20 @@ def parse(path):
             continue
         if l.startswith("P "):
             prog = l[2:]
-            progs.setdefault(prog, {"flows": {"A": set(), "B": set()}, "err": []})
+            progs.setdefault(prog, {"flows": {"A": set(), "B": set()}, "err": [], "stat": {}})
         elif l.startswith("FLOW "):
             p = l.split()
-            progs[prog]["flows"][p[1]].add(p[2])
+            progs[prog]["flows"][p[1]].add((p[2], p[5] if len(p) > 5 else "?"))
+        elif l.startswith("STAT "):
+            for kv in l.split()[1:]:
+                k, _, v = kv.partition("=")
+                progs[prog]["stat"][k] = int(v)
         elif l.startswith(("ERR", "PANIC", "FAIL")):
             progs[prog]["err"].append(l)
         elif l.startswith("F "):
             p = l.split()
             cur = {"id": p[1], "name": p[2], "kind": p[3] if len(p) > 3 else "?", "prog": prog, "B": [], "C": {}, "X": {},
-                   "R": {}, "I": {}, "tag": {}, "dup": set(), "W": None}
+                   "R": {}, "I": {}, "tag": {}, "W": None, "S": {}, "QS": {}}
             fns[(prog, p[1])] = cur
         elif cur is None:
             continue
@@ -379,12 +504,15 @@ def parse(path):
         elif l[:2] in ("RP", "RM", "RV", "RE"):
             k, _, v = l.partition(" = ")
             cur["R"][k] = v.strip()
+        elif l[:2] == "RS":
+            k, _, v = l.partition(" = ")
+            cur["S"][k[3:]] = v.strip()
+        elif l[:2] == "QS":
+            p = l.split()
+            cur["QS"][p[1]] = p[2]
         elif l[:2] == "RI":
             k, _, v = l.partition(" = ")
-            v = v.strip()
-            cur["I"][k[3:]] = v.split()[0]
-            if " dup" in v:
-                cur["dup"].add(k[3:])
+            cur["I"][k[3:]] = v.strip().split()[0]
         elif l[:2] == "W ":
             cur["W"] = l.split()[1:]
         elif l[:2] == "QE":
@@ -397,24 +525,6 @@ def fn_text(fn):
     return "\n".join(["F %s %s" % (fn["id"], fn["name"])] + fn["B"] + ["C %s %s" % kv for kv in fn["C"].items()] +
                      ["X %s %s" % kv for kv in fn["X"].items()])
 
-
-
-def repaired_dup(kind, v, mv):
-    """True when impl and faithful model differ ONLY by the artefact of PathToLeaf's duplicated last block, the
-    implementation being the one without it (non-alarm direction: the impl is closer to the spec than the model)."""
-    if mv is None:
-        return False
-    if kind == "RP":
-        b1, _, c1 = v.partition(";")
-        b2, _, c2 = mv.partition(";")
-        b1, b2, c1, c2 = b1.split(), b2.split(), c1.split(), c2.split()
-        return len(b1) >= 1 and b1[0] != "nil" and b2 == b1 + [b1[-1]] and (c1 == c2 or c1 == c2[:-1])
-    if kind == "RE":
-        c1 = v.split(";")[0].split()
-        c2 = mv.split(";")[0].split()
-        d1, d2 = v.rsplit("d=", 1)[-1], mv.rsplit("d=", 1)[-1]
-        return len(c2) > 0 and c1 == c2[:-1] and (d1 == d2 or (d1 == "0" and d2 == "1"))
-    return False
 
 
 # ---------------------------------------------------------------------------------- the check
@@ -477,15 +587,19 @@ def run(chk):
     stats = {"functions": 0, "functions_with_if": 0, "path_queries": 0, "paths_found": 0, "paths_with_conditions": 0,
              "predicate_queries": 0, "predicate_true": 0, "validator_verdict_queries": 0, "validator_conditions": 0,
              "real_edges": 0, "real_edges_conditioned": 0, "real_edges_dropped": 0, "edges_unmodelled_form": 0,
+             "sanitizer_node_verdicts": 0, "sanitizer_nodes": 0, "sanitizer_verdicts_oracle_only": 0, "sanitizer_mismatch": 0,
+             "leaf_verdicts_own_matcher": 0, "leaf_verdicts_oracle": 0, "taint_problems_dumped": 0,
              "model_mismatch": 0, "impl_more_conservative": 0, "edge_spec_failures_known_class": 0,
-             "edge_spec_failures_other": 0, "scenarios": 0, "scenarios_leaking": 0, "scenarios_suppressed": 0,
-             "scenarios_suppressed_and_leaking": 0, "scenarios_unattributed_miss": 0, "stale_known_finding": 0,
-             "edge_spec_failures_dup_class": 0, "repaired_dup_artefact": 0, "cfg_not_wf": 0, "conds_not_wf": 0}
+             "edge_spec_failures_other": 0, "scenarios": 0, "scenario_problem_pairs": 0, "pairs_leaking": 0, "pairs_suppressed": 0,
+             "pairs_suppressed_and_leaking": 0, "pairs_unattributed_miss": 0, "stale_known_finding": 0,
+             "cfg_not_wf": 0, "conds_not_wf": 0}
     distinct = set()
     shape_dist = {}
     found_concrete = False
     tie_broken = []
-    edge_viol = []      # edge-level spec failures outside the known classes; reported after the natively confirmed ones
+    edge_viol = []      # edge-level spec failures outside the known class; reported after the natively confirmed ones
+    san_viol = []       # real isSanitizer verdict of a node differs from the problem's own sanitizer list
+    problems_seen = set()
 
     allfns = {}
     allprogs = {}
@@ -501,11 +615,14 @@ def run(chk):
         for p in progs.values():
             if p["err"]:
                 chk.notes.append("analysis messages for %s: %s" % (d, "; ".join(p["err"])[:300]))
+            stats["leaf_verdicts_own_matcher"] += p["stat"].get("leaf_own", 0)
+            stats["leaf_verdicts_oracle"] += p["stat"].get("leaf_oracle", 0)
         for key, fn in impl.items():
             allfns[key] = fn
-            m = mod.get(key, {"R": {}, "I": {}, "dup": set(), "W": None})
+            m = mod.get(key, {"R": {}, "I": {}, "W": None})
             fn["model"] = m
             stats["functions"] += 1
+            problems_seen.add((fn["prog"], fn["id"].split(".")[0]))
             if any(" - |" not in b for b in fn["B"]):
                 stats["functions_with_if"] += 1
             sig = (tuple(b.split("|")[1].strip() for b in fn["B"]), tuple(sorted(fn["C"].values())))
@@ -545,13 +662,18 @@ def run(chk):
                     if m["I"].get(k[3:]) == "bypass":
                         stats["stale_known_finding"] += 1
                     continue
-                if repaired_dup(kind, v, mv):
-                    stats["repaired_dup_artefact"] += 1     # PathToLeaf no longer duplicates the last block: impl closer to the spec
-                    if kind == "RE" and v.endswith("d=0") and mv.endswith("d=1"):
-                        stats["stale_known_finding"] += 1
-                    continue
                 stats["model_mismatch"] += 1
                 tie_broken.append((fn, k, v, mv))
+            # sanitizer verdict of every call node / call argument node for THIS problem vs the problem's own sanitizer list
+            for site, real in fn["S"].items():
+                stats["sanitizer_node_verdicts"] += 1
+                stats["sanitizer_nodes"] += real == "1"
+                own = fn["QS"].get(site, "?")
+                if own == "?":
+                    stats["sanitizer_verdicts_oracle_only"] += 1
+                elif own != real:
+                    stats["sanitizer_mismatch"] += 1
+                    san_viol.append((fn, site, real, own))
             if m.get("W") is not None:
                 stats["cfg_not_wf"] += m["W"][0] != "1"
                 stats["conds_not_wf"] += m["W"][1] != "1"
@@ -561,18 +683,9 @@ def run(chk):
             for k, v in fn["R"].items():
                 if k[:2] != "RE" or not v.endswith("d=1"):
                     continue
-                ideal = m["I"].get(k[3:])
-                if ideal != "bypass":
+                if m["I"].get(k[3:]) != "bypass":
                     continue
-                explained = (m["R"].get(k) or "").endswith("d=1")      # the faithful model drops this edge too
-                if explained and k[3:] in m["dup"]:
-                    stats["edge_spec_failures_dup_class"] += 1
-                    if stats["edge_spec_failures_dup_class"] <= 3:
-                        dd = chk.replay_dir(DUP_KEY + ":" + fn["name"] + k)
-                        write_replay(dd, fn, k, v, "edge dropped ONLY because of the condition collected on the duplicated last block of the "
-                                     "found path (PathToLeaf emits the destination block twice): the call is reached before that branch", fn["prog"])
-                        chk.violation(DUP_KEY, "edge %s of %s dropped by the self-loop branch of its own destination block" % (k, fn["name"]), dd)
-                elif explained:
+                if (m["R"].get(k) or "").endswith("d=1"):      # the faithful single-path model drops this edge too
                     stats["edge_spec_failures_known_class"] += 1
                     if stats["edge_spec_failures_known_class"] <= 3:
                         dd = chk.replay_dir(KNOWN_KEY + ":" + fn["name"] + k)
@@ -583,75 +696,98 @@ def run(chk):
                     stats["edge_spec_failures_other"] += 1
                     found_concrete = True
                     edge_viol.append((fn, k, v, m["R"].get(k)))
-            if (stats["real_edges_conditioned"] and any(kk[:2] == "RE" and vv.split(";")[0].strip() for kk, vv in fn["R"].items())
-                    and len(chk.cov["samples"]) < 6):
-                chk.sample({"function": fn["name"], "blocks": fn["B"], "conditions": fn["C"],
+            if (any(kk[:2] == "RE" and vv.split(";")[0].strip() for kk, vv in fn["R"].items()) and len(chk.cov["samples"]) < 6):
+                chk.sample({"function": fn["name"], "taint_problem": fn["id"].split(".")[0], "blocks": fn["B"], "conditions": fn["C"],
                             "edges": {kk: vv for kk, vv in fn["R"].items() if kk[:2] == "RE" and vv.split(";")[0].strip()},
                             "ideal": {kk: vv for kk, vv in m["I"].items()}})
+    stats["taint_problems_dumped"] = len(problems_seen)
 
-    # ---- ground truth on the generated scenarios
+    # ---- ground truth on the generated scenarios, per (scenario, taint problem)
     nrep = {}
     for d, scen in gens:
         _, rc, out, err = nats[d]
         if rc != 0:
             raise vlib.BuildError("generated scenario program does not run: %s" % d, err[-3000:])
-        leaks = set(int(l.split()[1]) for l in out.splitlines() if l.startswith("LEAK "))
+        leaks = set()
+        for l in out.splitlines():
+            if l.startswith("LEAK "):
+                p = l.split()
+                leaks.add((int(p[1]), p[2]))
         flows = allprogs[d]["flows"]
         byname = {}
         for (p, fid), fn in allfns.items():
             if p == d:
-                byname[fn["name"].split(".")[-1]] = fn
+                byname[(int(fid.split(".")[0]), fn["name"].split(".")[-1])] = fn
         for s in scen:
             k = s["k"]
             stats["scenarios"] += 1
-            a = ("sink%d" % k) in flows["A"]
-            b = ("sink%d" % k) in flows["B"]
-            leak = k in leaks
-            stats["scenarios_leaking"] += leak
-            cls = "%s|A=%d B=%d leak=%d" % (s["shape"], a, b, leak)
-            shape_dist[cls] = shape_dist.get(cls, 0) + 1
-            if b and not a:
-                stats["scenarios_suppressed"] += 1
-            if leak and not a and not b:
-                stats["scenarios_unattributed_miss"] += 1
-                chk.notes.append("scenario %s/%s (sink%d): marker reaches the sink natively but no flow is reported even WITHOUT "
-                                 "validator/sanitizer specs (a C01 matter, not attributed to C02)" % (s["shape"], s["form"], k))
-            if not (leak and b and not a):
-                continue
-            stats["scenarios_suppressed_and_leaking"] += 1
-            # is the suppression the single-path class exhibited by the faithful model?
-            fn = byname.get(s["fn"])
-            explained = False
-            why = "no dropped edge into sink%d found in %s" % (k, s["fn"])
-            if fn is not None:
-                # known class <=> the faithful single-path model reproduces EVERY edge verdict of this function and some dropped
-                # edge into this sink has a bypass path (the situation of validator_drop_refuted)
-                res = {kk: vv for kk, vv in fn["R"].items() if kk[:2] == "RE" and kk.split()[1] != "s" and not vv.endswith("d=x")}
-                agree = all(fn["model"]["R"].get(kk) == vv or repaired_dup("RE", vv, fn["model"]["R"].get(kk)) for kk, vv in res.items())
-                dropped = [kk for kk, vv in res.items() if vv.endswith("d=1") and fn["tag"].get(kk, "").endswith("->sink%d#0" % k)]
-                bypass = [kk for kk in dropped if fn["model"]["I"].get(kk[3:]) == "bypass"]
-                explained = agree and len(bypass) > 0
-                why = ("edges into sink%d dropped by the real addNext: %s; of these with a CFG path bypassing the validated branch: %s; "
-                       "faithful single-path model reproduces all %d edge verdicts of the function: %s" % (k, dropped, bypass, len(res), agree))
-                if explained and all(kk[3:] in fn["model"]["dup"] for kk in bypass):
-                    explained = "dup"
-            key = (DUP_KEY if explained == "dup" else KNOWN_KEY) if explained else "suppressed-flow:%s:%s" % (s["shape"], s["form"])
-            nrep[key] = nrep.get(key, 0) + 1
-            if explained and nrep[key] > 2:
-                chk.violation(key, "scenario %s/%s (sink%d)" % (s["shape"], s["form"], k), "")    # known class: first two replays suffice
-                continue
-            dd = chk.replay_dir(key + str(k))
-            write_scenario_replay(dd, d, s, why)
-            if chk.violation(key, "scenario %s/%s: the flow source -> sink%d is reported without validator/sanitizer specs, silent with "
-                             "them, and the unvalidated/unsanitised marker reaches the sink natively (%s)" % (s["shape"], s["form"], k, why), dd):
-                found_concrete = True
+            for pi, prob in enumerate(PROBLEMS):
+                if not re.match(prob["sinks"], s["sink"]):
+                    continue
+                a = any(sk == s["sink"] and src in prob["sources"] for sk, src in flows["A"])
+                b = any(sk == s["sink"] and src in prob["sources"] for sk, src in flows["B"])
+                leak = any((k, mk) in leaks for mk in prob["markers"])
+                if not (a or b or leak):
+                    continue            # no data of this problem in the scenario
+                stats["scenario_problem_pairs"] += 1
+                stats["pairs_leaking"] += leak
+                cls = "%s|%s A=%d B=%d leak=%d" % (s["shape"], prob["name"], a, b, leak)
+                shape_dist[cls] = shape_dist.get(cls, 0) + 1
+                if b and not a:
+                    stats["pairs_suppressed"] += 1
+                if leak and not a and not b:
+                    stats["pairs_unattributed_miss"] += 1
+                    chk.notes.append("scenario %s/%s (%s, %s): marker reaches the sink natively but no flow is reported even WITHOUT "
+                                     "validator/sanitizer specs (a C01 matter, not attributed to C02)" % (s["shape"], s["form"], s["sink"], prob["name"]))
+                if not (leak and b and not a):
+                    continue
+                stats["pairs_suppressed_and_leaking"] += 1
+                # is the suppression the single-path class exhibited by the faithful model?
+                fn = byname.get((pi, s["fn"]))
+                explained = False
+                why = "no dropped edge into %s found in %s for %s" % (s["sink"], s["fn"], prob["name"])
+                if fn is not None:
+                    # known class <=> the faithful single-path model reproduces EVERY edge verdict of this function (for this problem),
+                    # every sanitizer verdict agrees with the problem's own list, and some dropped edge into this sink has a bypass
+                    # path (the situation of validator_drop_refuted)
+                    res = {kk: vv for kk, vv in fn["R"].items() if kk[:2] == "RE" and kk.split()[1] != "s" and not vv.endswith("d=x")}
+                    agree = all(fn["model"]["R"].get(kk) == vv for kk, vv in res.items())
+                    san_ok = all(fn["QS"].get(site, "?") in ("?", real) for site, real in fn["S"].items())
+                    dropped = [kk for kk, vv in res.items() if vv.endswith("d=1") and fn["tag"].get(kk, "").endswith("->%s#0" % s["sink"])]
+                    bypass = [kk for kk in dropped if fn["model"]["I"].get(kk[3:]) == "bypass"]
+                    explained = agree and san_ok and len(bypass) > 0
+                    why = ("%s: edges into %s dropped by the real addNext: %s; of these with a CFG path bypassing the validated branch: %s; "
+                           "faithful single-path model reproduces all %d edge verdicts of the function: %s; sanitizer verdicts as specified: %s"
+                           % (prob["name"], s["sink"], dropped, bypass, len(res), agree, san_ok))
+                key = KNOWN_KEY if explained else "suppressed-flow:%s:%s:%s" % (s["shape"], s["form"], prob["name"])
+                nrep[key] = nrep.get(key, 0) + 1
+                if explained and nrep[key] > 2:
+                    chk.violation(key, "scenario %s/%s (%s)" % (s["shape"], s["form"], s["sink"]), "")    # known class: two replays suffice
+                    continue
+                dd = chk.replay_dir(key + str(k))
+                write_scenario_replay(dd, d, s, why)
+                if chk.violation(key, "scenario %s/%s, taint problem %s: the flow %s -> %s is reported without validator/sanitizer specs, "
+                                 "silent with them, and the unvalidated/unsanitised marker reaches the sink natively (%s)"
+                                 % (s["shape"], s["form"], prob["name"], "/".join(sorted(prob["sources"])), s["sink"], why), dd):
+                    found_concrete = True
 
     for fn, k, v, mv in edge_viol[:20]:
         dd = chk.replay_dir("edge-bypass:" + fn["name"] + k)
         write_replay(dd, fn, k, v, "the real addNext drops this edge, a CFG path from the source block to the call avoids "
                      "every validated branch, and the faithful single-path model does NOT predict the drop (model: %s)" % mv, fn["prog"])
         chk.violation("edge-dropped-with-bypass:%s" % fn["name"].split(".")[-1],
-                      "edge %s (%s) of %s is dropped by the validator test although a CFG path bypasses the check" % (k, fn["tag"].get(k, ""), fn["name"]), dd)
+                      "edge %s (%s) of %s (taint problem %s) is dropped by the validator test although a CFG path bypasses the check"
+                      % (k, fn["tag"].get(k, ""), fn["name"], fn["id"].split(".")[0]), dd)
+    for fn, site, real, own in san_viol[:20]:
+        # concrete: a named call node of a named program whose sanitizer verdict contradicts the problem's own sanitizer list
+        found_concrete = True
+        dd = chk.replay_dir("sanitizer-verdict:" + fn["name"] + site + fn["id"])
+        write_replay(dd, fn, "RS " + site, real, "isSanitizer of the call node / argument %s (block.instr.callee.arg) for taint problem %s answers %s, "
+                     "but the sanitizer list of THAT problem says %s (statement: a flow is dropped because of a sanitizer only if the data was "
+                     "returned by a sanitizer call OF THE PROBLEM BEING SOLVED)" % (site, fn["id"].split(".")[0], real, own), fn["prog"])
+        chk.violation("sanitizer-verdict:%s:%s" % (site.split(".")[2], "extra" if real == "1" else "missing"),
+                      "real isSanitizer(problem %s, %s in %s) = %s, the problem's sanitizer specs say %s"
+                      % (fn["id"].split(".")[0], site, fn["name"], real, own), dd)
 
     if tie_broken and not found_concrete:
         fn, k, v, mv = tie_broken[0]
@@ -662,25 +798,30 @@ def run(chk):
                       % (len(tie_broken), k, fn["name"], v, mv), dd, no_input=True)
     chk.proof_broken(failed, found_concrete)
 
-    nq = stats["path_queries"] + stats["predicate_queries"] + stats["validator_verdict_queries"] + stats["real_edges"]
-    chk.cov["evaluations"] = nq + stats["scenarios"]
+    nq = (stats["path_queries"] + stats["predicate_queries"] + stats["validator_verdict_queries"] + stats["real_edges"]
+          + stats["sanitizer_node_verdicts"])
+    chk.cov["evaluations"] = nq + stats["scenario_problem_pairs"]
     chk.cov["distinct_nontrivial"] = len(distinct) + len(shape_dist)
-    chk.cov["rule"] = ("T-dump: every summarised function of the corpus/generated programs plus a seed-sampled set of If-containing "
-                       "standard-library functions: all block pairs (<=12 blocks, else 40 sampled pairs) through the real "
-                       "FindIntraProceduralPath, every (If condition, call argument) through IsPredicateTo, every If condition through "
-                       "isValidatorCondition, every real summary edge into a call argument through the real addNext; non-trivial = "
-                       "function with >=3 blocks and a found path carrying >=1 condition, distinct = distinct (successor lists, condition "
-                       "expressions); T-gt: distinct (scenario shape, reported with specs, reported without, leaks natively) classes")
-    chk.cov["traces_validated_against_impl"] = nq - stats["model_mismatch"]
+    chk.cov["rule"] = ("T-dump: every summarised function of the corpus/generated programs, once PER TAINT PROBLEM of the configuration, plus a "
+                       "seed-sampled set of If-containing standard-library functions: all block pairs (<=12 blocks, else 40 sampled pairs) "
+                       "through the real FindIntraProceduralPath, every (If condition, call argument) through IsPredicateTo, every If condition "
+                       "through isValidatorCondition of that problem, every real summary edge into a call argument through the real addNext of "
+                       "that problem, every call node / argument node through the real isSanitizer of that problem; non-trivial = function "
+                       "with >=3 blocks and a found path carrying >=1 condition, distinct = distinct (successor lists, condition expressions); "
+                       "T-gt: distinct (scenario shape, taint problem, reported with specs, reported without, leaks natively) classes")
+    chk.cov["traces_validated_against_impl"] = nq - stats["model_mismatch"] - stats["sanitizer_mismatch"]
     stats["scenario_classes"] = shape_dist
     chk.cov["distribution"] = stats
     chk.assumptions += [
-        "validator/sanitizer/source/sink matching (code identifiers) is an oracle here (property C04); the leaf verdict 'callee is a "
-        "validator' is taken from the real IsMatchingCodeIDWithCallee",
+        "validator/sanitizer matching of a callee against ONE problem's code identifiers: decided by the harness's own matcher (package + "
+        "method regexes, static callee) for %d leaf verdicts, taken from the real IsMatchingCodeIDWithCallee / not compared for %d (other "
+        "identifier fields, interface calls); source/sink matching is an oracle (property C04)"
+        % (stats["leaf_verdicts_own_matcher"], stats["leaf_verdicts_oracle"]),
         "CFG, SSA values and types as built by x/tools/go/ssa; the translation of SSA values to the model's vexpr/cexpr is done by "
         "harness/cmd/c02dump (trusted, syntactic)",
-        "native ground truth uses honest validators (accept exactly marker-free data) and an honest sanitizer (removes the marker); all "
-        "valuations of <=5 opaque branch conditions per scenario, loops cut after 60 steps",
+        "native ground truth uses honest validators (accept exactly the data free of the marker of the problems that list them) and honest "
+        "sanitizers; all valuations of <=5 opaque branch conditions per scenario, loops cut after 60 steps; generated configuration: 3 taint "
+        "problems with overlapping sinks (P1/P2), overlapping sources (P2/P3), shared and private sanitizers/validators",
         "hypotheses of the theorems checked on every dumped function by the extracted wf_cfgb / wf_conds: %d CFGs not well-formed, "
         "%d functions with an ill-formed condition" % (stats["cfg_not_wf"], stats["conds_not_wf"]),
         "edges into parameters/free variables decorated at call sites (addParamEdge/addFreeVarEdge with a condition) and call values of "
@@ -713,11 +854,11 @@ def write_scenario_replay(d, prog, s, why):
     for n in ("main.go", "go.mod", "config.yaml", "config_b.yaml"):
         shutil.copy(os.path.join(prog, n), d)
     with open(os.path.join(d, "replay.txt"), "w") as f:
-        f.write("scenario %s / validator form %s, sink%d, function %s\n%s\n\n%s\n" % (s["shape"], s["form"], k, s["fn"], why, body))
-        f.write("expected: the flow source() -> sink%d is reported (the marker reaches sink%d in a native run: `go run .` prints LEAK %d)\n"
-                "observed: `argot taint -config config.yaml .` does not report it, `argot taint -config config_b.yaml .` (no validators / "
-                "sanitizers) does\nre-run: cd <this dir>; go run . | grep 'LEAK %d$'; build/bin/c02dump -gt -maxfn 0 . | grep 'sink%d '\n"
-                % (k, k, k, k, k))
+        f.write("scenario %s / form %s, sink %s, function %s\n%s\n\n%s\n" % (s["shape"], s["form"], s["sink"], s["fn"], why, body))
+        f.write("expected: the flow into %s is reported (the marker reaches it in a native run: `go run .` prints LEAK %d <A|B|C>)\n"
+                "observed: `argot taint -config config.yaml .` does not report it, `argot taint -config config_b.yaml .` (same problems "
+                "without validators / sanitizers) does\nre-run: cd <this dir>; go run . | grep 'LEAK %d '; "
+                "build/bin/c02dump -gt -maxfn 0 . | grep ' %s '\n" % (s["sink"], k, k, s["sink"]))
 
 
 def replay(chk, path):
